@@ -500,6 +500,10 @@ class CompositeFrontend(ConstrainedFrontend):
 
             for v in s.variables:
                 merged._solvers[v] = s
+            # a common child nobody has checked yet is still to be checked by the merged solver (taken over silently,
+            # an unsatisfiable common child made the merged solver answer satisfiable)
+            if any(s in cs._unchecked_solvers for cs in [self, *others]):
+                merged._unchecked_solvers.add(s)
 
         noncommon_solvers = [[s for s in cs._solver_list if id(s) not in common_ids] for cs in [self, *others]]
 
